@@ -92,6 +92,9 @@ def main():
         outname = "results_seeded.json"
     else:
         muts = json.load(open(os.path.join(HERE, "mutants.json")))
+        import glob
+        for fn in sorted(glob.glob(os.path.join(HERE, "mutants.d", "*.json"))):
+            muts.extend(json.load(open(fn)))
         outname = "results.json"
     if args.only:
         want = set(args.only.upper().split(","))
